@@ -381,3 +381,28 @@ Arguments SlNew {T} l.
 Definition PNil : panic_kind := PMsg "invalid memory address or nil pointer dereference".
 Definition go_deref {A : Type} (p : option A) : res A :=
   match p with Some a => Ok a | None => Panic PNil end.
+
+(* ---- error values (translator/fn_err.go) ----
+   Only what shell.go does with an error: the values nil, io.EOF and "another error, carried
+   through" (its identity an integer code); the tests x == nil and x == y. *)
+Inductive go_error : Type :=
+| ENil                (* nil *)
+| EEOF                (* io.EOF *)
+| EOther (code : Z).  (* any other error value *)
+Definition go_err_isnil (e : go_error) : bool :=
+  match e with ENil => true | _ => false end.
+Definition go_err_eqb (a b : go_error) : bool :=
+  match a, b with
+  | ENil, ENil => true
+  | EEOF, EEOF => true
+  | EOther x, EOther y => x =? y
+  | _, _ => false
+  end.
+
+(* strings.IndexByte(s, b): the index of the first b in s, -1 if there is none *)
+Fixpoint go_index_byte_from (s : list Z) (b : Z) (i : Z) : Z :=
+  match s with
+  | [] => -1
+  | x :: r => if x =? b then i else go_index_byte_from r b (i + 1)
+  end.
+Definition go_index_byte (s : list Z) (b : Z) : Z := go_index_byte_from s b 0.
